@@ -30,6 +30,39 @@ def block_cells(block):
     return {int(a): v for a, v in block['cells'].items()}
 
 
+class Table(object):
+    """One table of the data model: explicitly stored cells plus, for a table left at the
+    datastore's constructor default ({"kind": "default"}: 65536 cells of 0 from datastore address 0),
+    a fully populated range [lo, hi] of wire addresses whose untouched cells read as `fill`."""
+
+    def __init__(self, cells, full=None):
+        self.cells = cells
+        self.full = full            # None | (lo, hi, fill)
+
+    def __contains__(self, a):
+        return a in self.cells or (self.full is not None and self.full[0] <= a <= self.full[1])
+
+    def __getitem__(self, a):
+        if a in self.cells:
+            return self.cells[a]
+        if self.full is not None and self.full[0] <= a <= self.full[1]:
+            return self.full[2]
+        raise KeyError(a)
+
+    def __setitem__(self, a, v):
+        self.cells[a] = v
+
+    def keys(self):
+        if self.full is not None:
+            return range(self.full[0], self.full[1] + 1)
+        return self.cells.keys()
+
+    def dump(self):
+        if self.full is None:
+            return dict(self.cells)
+        return {a: v for a, v in self.cells.items() if v != self.full[2]}
+
+
 class RefUnit(object):
     def __init__(self, layout):
         self.zero_mode = bool(layout.get('zero_mode', False))
@@ -42,10 +75,14 @@ class RefUnit(object):
             self.alias[t] = src
         for t in ('c', 'd', 'h', 'i'):
             if self.alias[t] == t:
-                cells = block_cells(layout['tables'][t])
+                spec = layout['tables'][t]
                 bit = t in BIT_TABLES
-                self.store[t] = {a - off: (bool(v) if bit else int(v)) for a, v in cells.items()
-                                 if 0 <= a - off <= 0xFFFF}
+                if spec['kind'] == 'default':
+                    self.store[t] = Table({}, (max(0, 0 - off), 0xFFFF - off, False if bit else 0))
+                    continue
+                cells = block_cells(spec)
+                self.store[t] = Table({a - off: (bool(v) if bit else int(v)) for a, v in cells.items()
+                                       if 0 <= a - off <= 0xFFFF})
 
     def table(self, t):
         return self.store[self.alias[t]]
@@ -57,14 +94,15 @@ class RefUnit(object):
         return all((addr + i) in tab for i in range(qty))
 
     def dump(self):
-        """wire-address view of all four tables (aliases expanded)"""
-        return {t: dict(self.table(t)) for t in ('c', 'd', 'h', 'i')}
+        """wire-address view of all four tables (aliases expanded; default tables: non-default cells only)"""
+        return {t: self.table(t).dump() for t in ('c', 'd', 'h', 'i')}
 
     def copy_state(self):
-        return {t: dict(v) for t, v in self.store.items()}
+        return {t: dict(v.cells) for t, v in self.store.items()}
 
     def restore(self, st):
-        self.store = {t: dict(v) for t, v in st.items()}
+        for t, v in st.items():
+            self.store[t].cells = dict(v)
 
     # -----------------------------------------------------------------
     def execute(self, pdu):
